@@ -9,7 +9,6 @@ NOT_APPLICABLE = {
     'C05': 'Network::send is async (sleep, Notify, spawn, DashMap iteration); latency/throughput are tokio-timer behaviour; only a one-line MTU comparison is synchronous (DESIGN 4/C05).',
     'C06': 'Arp::resolve (retry loop, timeout, watch-channel wake-up, failure cache, gateway substitution) is an async coroutine; only the responder half is synchronous (DESIGN 4/C06).',
     'C13': 'run_internet / Machine::start / Shutdown are tokio Barrier, JoinSet, broadcast, select!, timeout and process::exit: scheduling is the property (DESIGN 4/C13).',
-    'C16': 'Not built: ArpRouter::demux (sim/elvis/src/applications/arp_router.rs) needs the machine/Control/DashMap environment models of C04 plus a recording model of tokio::spawn and the shim crate; time ran out before it was reached. The TTL underflow and longest-prefix routing it relies on are covered by C09 only.',
     'C19': 'NDL parser/generator are String/HashMap(RandomState)/nom/format!/file-I/O code producing an async tokio simulation; no solver encoding of the real parser within reach (DESIGN 4/C19).',
     'C20': 'DnsClient::get_host_by_name / DnsServer are async over sockets (C02); the synchronous codec pieces are checked under C08/C14 only (DESIGN 4/C20).',
 }
